@@ -8,7 +8,7 @@ Acyclic graphs: result and manifest must equal the model byte for byte.  Cyclic 
 return and the output stay within the size bound; CLI with a file argument agrees with the library.
 """
 import os, re, shutil, subprocess, tempfile, collections
-from lib import core, drv as D, build
+from lib import core, drv as D, build, clibatch
 
 WORD_RE = re.compile(r'(?<![A-Za-z0-9])w\d+(?![A-Za-z0-9])')
 ID = 'C13'
@@ -297,6 +297,9 @@ def work(job):
                         # cyclic graphs: only termination is promised (the CLI spells paths relative to '.', so its cycle guard sees other strings)
                         if not cyclic and rep3 is not None and rep3.status == 0 and out != rep3.fields[0] and b'mmd header' not in src.lower() and b'mmd footer' not in src.lower():
                             r.violate('cli-differs', 'CLI -t mmd output differs from mmd_transclude_source', case, 'cli: %s\nlib: %s' % (core.show(out, 300), core.show(rep3.fields[0], 300)))
+                if i % 40 == 0:
+                    # batch mode: every file's markers resolve against that file's own directory
+                    clibatch.batch_vs_single(r, cli, rng, {'transclude'} | set(f for f in ('footer', 'title') if rng.random() < 0.5), [[], [], ['--nosmart']], keyprefix='cli-batch-transclusion-differs')
                 if len(texts) > 1:
                     r.distinct.add(core.h64(i, seed))
                 r.sets['graph_kinds'].add(g.kind + (':cyclic' if cyclic else ':acyclic'))
